@@ -37,6 +37,15 @@ impl<Res, E> Receiver<Res, E> {
 }
 #[verifier::external_body]
 pub fn channel<Res, E>(cap: usize) -> (r: (Sender<Res, E>, Receiver<Res, E>)) ensures r.0.id == r.1.id { unimplemented!() }
+/// key.take(): the registration duty leaves the future's RAII field (where Drop would discharge it) and is now held by a
+/// local value: from here until complete()/cancel() a panic or cancellation would leak the key (obligation ledger)
+pub fn vx_take_key<K, Req, Res, E>(key: &mut Option<K>, Tracked(tr): Tracked<&mut Trace<Req, Res, E>>) -> (r: Option<K>)
+    ensures r == *old(key), *final(key) == None::<K>,
+        *final(tr) == (Trace { unguarded: old(tr).unguarded + if r is Some { 1nat } else { 0nat }, ..*old(tr) }),
+{
+    proof { if (*key) is Some { tr.unguarded = tr.unguarded + 1; } }
+    key.take()
+}
 /// parking_lot::Mutex inside Arc<InFlight> (R8): exclusive access for the duration of one kernel operation; the map
 /// may have been changed by any contracted operation of other tasks in between
 #[verifier::external_body]
@@ -78,7 +87,8 @@ impl<K: Hash + Eq + VClone, Res: VClone, E: VClone> InFlight<K, Res, E> {
             final(self).requests@ == old(self).requests@.remove(*key),   // #completion_frees_exactly_that_key [C11]
             old(self).requests@.contains_key(*key) ==> final(tr).sent == old(tr).sent.push((old(self).requests@[*key].id@, result)),   // #result_delivered_on_the_channel_of_its_own_key [C11]
             !old(self).requests@.contains_key(*key) ==> final(tr).sent == old(tr).sent,   // #nothing_sent_for_an_unregistered_key [C11]
-            final(tr).removed == old(tr).removed + 1 && final(tr).same_inner(*old(tr)),   // #frame
+            final(tr).removed == old(tr).removed + 1 && final(tr).calls == old(tr).calls && final(tr).last_done == old(tr).last_done && final(tr).done == old(tr).done
+                && final(tr).unguarded == (if old(tr).unguarded > 0 { old(tr).unguarded - 1 } else { 0 }),   // #frame_and_duty_discharged
     //@body InFlight::complete
 
     pub fn cancel<Req>(&mut self, key: &K, Tracked(tr): Tracked<&mut Trace<Req, Res, E>>)
@@ -86,7 +96,8 @@ impl<K: Hash + Eq + VClone, Res: VClone, E: VClone> InFlight<K, Res, E> {
         ensures
             final(self).requests@ == old(self).requests@.remove(*key),   // #cancel_frees_exactly_that_key [C11]
             final(tr).sent == old(tr).sent,   // #cancel_sends_nothing_so_waiters_see_the_channel_closed [C11]
-            final(tr).removed == old(tr).removed + 1 && final(tr).same_inner(*old(tr)),   // #frame
+            final(tr).removed == old(tr).removed + 1 && final(tr).calls == old(tr).calls && final(tr).last_done == old(tr).last_done && final(tr).done == old(tr).done
+                && final(tr).unguarded == (if old(tr).unguarded > 0 { old(tr).unguarded - 1 } else { 0 }),   // #frame_and_duty_discharged
     //@body InFlight::cancel
 }
 
@@ -124,6 +135,7 @@ impl<Req, Res: VClone, E: VClone, K: Hash + Eq + VClone> CoalesceFuture<Req, Res
             ((*old(self)) is Leading && r is Pending) ==> *final(tr) == *old(tr) && (*final(self)) is Leading && (*final(self))->key == (*old(self))->key && (*final(self))->in_flight == (*old(self))->in_flight,   // #pending_leader_keeps_its_registration [C11]
             (*old(self)) is Leading ==> (match r { Poll::Ready(Ok(v)) => final(tr).last_done == Some(Ok::<Res, E>(v)), Poll::Ready(Err(CoalesceError::Service(e))) => final(tr).last_done == Some(Err::<Res, E>(e)),
                                                  Poll::Ready(Err(_)) => false, Poll::Pending => true }),   // #leader_returns_the_inner_outcome_unchanged [C11,C20]
+            final(tr).unguarded == 0,   // #no_registration_duty_left_outside_the_future_when_poll_returns [C11]
             (*old(self)) is Waiting ==> final(tr).calls == old(tr).calls && final(tr).removed == 0 && final(tr).sent.len() == 0,   // #a_waiter_touches_neither_the_inner_service_nor_the_map [C11]
     //@body CoalesceFuture::poll@Future
 
